@@ -248,7 +248,7 @@ def edgeops(cx, exe, drv2):
     lines = ["X %d %d %d %d" % (i, rng.randrange(6), rng.randrange(1, 2 ** 31), rng.choice([3, 6, 10])) for i in range(cx.pick(150, 3000))]
     kl = lambda l: l.split()[1].split(".")[0] if l.startswith("X ") else None
     ko = lambda l: l.split()[1].split(".")[0] if l.startswith("X ") and l.split()[1].endswith(".end") else None
-    out_impl, crashes = vp.run_cases(exe, lines, kl, ko, timeout=cx.pick(45, 600), max_restarts=cx.pick(4, 20))
+    out_impl, crashes = vp.run_cases(exe, lines, kl, ko, timeout=cx.pick(45, 600), max_restarts=cx.pick(2, 20))
     steps = [l for l in out_impl.splitlines() if l.startswith("X ") and " ST0 " in l]
     out_model = run_parallel(drv2, steps, 8, timeout=cx.pick(600, 1700))
     verdict = {l.split()[1]: l for l in out_model.splitlines() if l.startswith("X ")}
@@ -320,7 +320,7 @@ def e2e(cx, exe, drv, budget):
         cases = [(100000 + i, "corpus") + t for i, t in enumerate(extra)] + cases
     lines = [e2e_line(c) for c in cases]
     kl = lambda l: l.split()[1] if l.startswith("E ") else None
-    out, crashes = vp.run_cases(exe, lines, kl, kl, timeout=cx.pick(40, 1500), max_restarts=cx.pick(8, 200))
+    out, crashes = vp.run_cases(exe, lines, kl, kl, timeout=cx.pick(30, 1500), max_restarts=cx.pick(4, 200))
     for cl, rc, err in crashes:
         t = cl.split()
         op2 = len(t) > 6 and t[4] == "1" and (int(t[6]) // 2) % 2 == 1   # SmoothOut(.., minSmoothness = 0)
